@@ -14,27 +14,34 @@ def sh(cmd, cwd=None, env=None, timeout=3600):
   return p.returncode, p.stdout.decode(errors='replace')
 
 
-def confirm(pid, wt):
-  d = os.path.join(ROOT, 'seeded', pid)
+def confirm(pid, wt, sid=None):
+  """sid: directory name under /verif/seeded (defaults to the property id)."""
+  sid = sid or pid
+  d = os.path.join(ROOT, 'seeded', sid)
   os.makedirs(d, exist_ok=True)
   patch = os.path.join(wt, 'patch_%s.diff' % pid)
   demo = os.path.join(wt, 'demo_%s.py' % pid)
   meta = {'property': pid, 'worktree_commit': sh('git rev-parse HEAD', wt)[1].strip()}
   env = dict(os.environ, PYTHONPATH=wt)
+  # start from a pristine tree and apply exactly the recorded patch (no git stash: the
+  # stash is shared between worktrees)
+  sh('git checkout -- malt', wt)
+  rc_p, out_p = sh('git apply %s' % patch, wt)
   rc_b, out_b = sh('python3 /tmp/baseline_wt.py %s' % wt)
   meta['baseline_with_change'] = out_b.strip().split('\n')[0]
   rc1, out1 = sh('/venv/bin/python demo_%s.py' % pid, wt, env)
-  sh('git stash -q -- malt', wt)
+  sh('git apply -R %s' % patch, wt)
   rc0, out0 = sh('/venv/bin/python demo_%s.py' % pid, wt, env)
-  sh('git stash pop -q', wt)
+  sh('git apply %s' % patch, wt)
   meta['demo_exit_with_change'] = rc1
   meta['demo_exit_without_change'] = rc0
   meta['demo_output_with_change'] = out1[-1500:]
   rc_a, out_a = sh('git -C /repo apply --check %s' % patch)
   meta['applies_to_repo_head'] = rc_a == 0
-  meta['confirmed'] = (rc_b == 0 and rc1 == 1 and rc0 == 0 and rc_a == 0)
-  meta['what_was_run'] = ['python3 /tmp/baseline_wt.py <worktree>  (pinned passing list, with the change)',
-                          'PYTHONPATH=<worktree> /venv/bin/python demo.py  (with the change: exit 1; after git stash: exit 0)',
+  meta['confirmed'] = (rc_p == 0 and rc_b == 0 and rc1 == 1 and rc0 == 0 and rc_a == 0)
+  meta['what_was_run'] = ['git apply patch.diff on a pristine scratch worktree',
+                          'python3 /tmp/baseline_wt.py <worktree>  (pinned passing list, with the change)',
+                          'PYTHONPATH=<worktree> /venv/bin/python demo.py  (with the change: exit 1; after git apply -R: exit 0)',
                           'git -C /repo apply --check patch.diff']
   shutil.copy(patch, os.path.join(d, 'patch.diff'))
   shutil.copy(demo, os.path.join(d, 'demo.py'))
@@ -44,11 +51,12 @@ def confirm(pid, wt):
     old = json.load(open(mp))
   old.update(meta)
   json.dump(old, open(mp, 'w'), indent=1)
-  print(pid, 'confirmed' if meta['confirmed'] else 'NOT CONFIRMED', meta['baseline_with_change'], rc1, rc0, rc_a)
+  print(sid, 'confirmed' if meta['confirmed'] else 'NOT CONFIRMED', meta['baseline_with_change'], rc1, rc0, rc_a)
 
 
-def run(pid, checks):
-  d = os.path.join(ROOT, 'seeded', pid)
+def run(sid, checks):
+  pid = sid
+  d = os.path.join(ROOT, 'seeded', sid)
   patch = os.path.join(d, 'patch.diff')
   rc, out = sh('git -C /repo status --porcelain --untracked-files=no')
   assert out.strip() == '', '/repo has local changes'
@@ -74,6 +82,6 @@ def run(pid, checks):
 
 if __name__ == '__main__':
   if sys.argv[1] == 'confirm':
-    confirm(sys.argv[2], sys.argv[3])
+    confirm(sys.argv[2], sys.argv[3], sys.argv[4] if len(sys.argv) > 4 else None)
   else:
-    run(sys.argv[2], sys.argv[3:] or [sys.argv[2]])
+    run(sys.argv[2], sys.argv[3:] or [sys.argv[2][:3]])
